@@ -217,6 +217,12 @@ Definition op_comp {S1 S2 S3} (A : Oper S2 S3) (B : Oper S1 S2) : Oper S1 S3 := 
   {| op_app := fun x => op_app A (op_app B x);
      op_dadj := fun x y => op_dadj B x (op_dadj A (op_app B x) y);
      op_linear := op_linear A && op_linear B |}.
+(* OperatorPointwiseProduct(A, B): x -> A(x) * B(x); derivative B(x) * A'(x) + A(x) * B'(x) *)
+Definition op_pwprod {S1 S2} (A B : Oper S1 S2) : Oper S1 S2 :=
+  {| op_app := fun x => smul S2 (op_app A x) (op_app B x);
+     op_dadj := fun x y => sadd S1 (op_dadj A x (smul S2 (op_app B x) y))
+                                   (op_dadj B x (smul S2 (op_app A x) y));
+     op_linear := false |}.
 Definition op_square (S : Space) : Oper S S :=                   (* PowerOperator(space, 2) *)
   {| op_app := fun x => smul S x x; op_dadj := fun x y => smul S (sscal S (of_Z 2) x) y;
      op_linear := false |}.
@@ -308,6 +314,13 @@ Definition op_matrix (w1 w2 : list T) (m : list (list T)) : Oper (wspace w1) (ws
     (fun x : list T => mvec m x)
     (fun (_ : list T) (y : list T) => mvec (transpose (length w1) m) y)
     true.
+
+(* ufunc_ops.reciprocal(space): x -> 1/x, derivative multiplication by -1/x^2 *)
+Definition op_recip (w : list T) : Oper (wspace w) (wspace w) :=
+  @mkOper _ (wspace w) (wspace w)
+    (fun x : list T => map (fun a => none_ / a) x)
+    (fun (x y : list T) => vmul (map (fun a => - none_ / (a * a)) x) y)
+    false.
 
 (* NumericalGradient(f, method, step) of derivatives.py on a 1-d tensor space:
    dx = step * e_i (step/2 for 'central'), differences divided by step at the end.
